@@ -627,8 +627,8 @@ func (h *hist) opStop(name string) {
 }
 
 // reload compares a group that was loaded from its meta page (reopen, or re-creation of a stopped group) with
-// the stored positions: ack = max(own, queue ack) and consumed = max(own, ack) - a group never (re)starts behind
-// the queue's acknowledged position, and never with ack > consumed.
+// the stored positions: ack = min(max(own, queue ack), appended) and consumed = min(max(own, ack), appended) - a
+// group never (re)starts behind the queue's acknowledged position, never with ack > consumed, never beyond the log.
 func (h *hist) reload(g *mGroup, handle queue.ConsumerGroup, via string) {
 	wasStopped := g.stopped
 	stc, sta := g.consumed, g.ack
@@ -640,6 +640,23 @@ func (h *hist) reload(g *mGroup, handle queue.ConsumerGroup, via string) {
 	if expAck > expC {
 		expC = expAck
 	}
+	// a group never points beyond the log: positions above appended (they only arise from an explicit index reset:
+	// SetAppendedSeq to a lower value while the group was stopped, out-of-range SetConsumedSeq) are clamped,
+	// consumed first, then ack. Stored positions <= appended must come back unchanged (modulo the raises above).
+	clamped := false
+	if expC > h.appended {
+		expC, clamped = h.appended, true
+	}
+	if expAck > h.appended {
+		expAck, clamped = h.appended, true
+	}
+	if clamped {
+		h.res.count("reload_clamped_to_appended", 1)
+		if g.suspended == "" && !g.resetWhileStopped {
+			// only an explicit reset can have put a position beyond appended
+			h.violate("C06/"+via+"/stored-position-beyond-appended-without-reset", "group %s: stored consumed=%d ack=%d with appended %d and no index reset on this group", g.name, stc, sta, h.appended)
+		}
+	}
 	rc, ra := handle.ConsumedSeq(), handle.AcknowledgedSeq()
 	g.h, g.exists, g.stopped, g.paused, g.onDisk = handle, true, false, false, true
 	if wasStopped {
@@ -647,8 +664,10 @@ func (h *hist) reload(g *mGroup, handle queue.ConsumerGroup, via string) {
 	}
 	if ra != expAck {
 		cl := "C06/" + via + "/ack-changed"
-		if ra == sta {
+		if ra == sta && sta < h.qack {
 			cl = "C06/" + via + "/ack-not-raised-to-queue-ack"
+		} else if ra == sta && sta > h.appended {
+			cl = "C06/" + via + "/ack-beyond-appended-not-clamped"
 		}
 		h.fail(cl, "group %s: stored ack %d, queue ack %d, after %s ack=%d (expected %d)", g.name, sta, h.qack, via, ra, expAck)
 		return
@@ -671,6 +690,10 @@ func (h *hist) reload(g *mGroup, handle queue.ConsumerGroup, via string) {
 			default:
 				h.fail("C06/reload-ack-above-consumed/other/"+via, "group %s: stored consumed=%d ack=%d, queue ack %d, after %s consumed=%d ack=%d (ack > consumed)", g.name, stc, sta, h.qack, via, rc, ra)
 			}
+			return
+		}
+		if rc > h.appended && rc == stc {
+			h.fail("C06/"+via+"/consumed-beyond-appended-not-clamped", "group %s: stored consumed=%d ack=%d, appended %d, after %s consumed=%d (expected %d)", g.name, stc, sta, h.appended, via, rc, expC)
 			return
 		}
 		h.fail("C06/"+via+"/consumed-changed", "group %s: stored consumed=%d ack=%d, queue ack %d, after %s consumed=%d (expected %d)", g.name, stc, sta, h.qack, via, rc, expC)
